@@ -277,9 +277,54 @@ def e_default_on_required(rng, m):
     if not ch:
         return None
     ch["required"] = True
-    ch["default"] = family.VALID[ch["datatype"]][0][0] or "v"
+    ch["default"] = rng.choice([family.VALID[ch["datatype"]][0][0] or "v",
+                                "", " "])
     ch["defaults"] = []
-    return "default on required key"
+    return "default on required key (%r)" % ch["default"]
+
+
+def e_default_attr_on_wild(rng, m):
+    cs, _ = conts(m)
+    cand = [ch for c, _, _ in cs for ch in c["children"]
+            if ch["kind"] == "key" and ch["name"] == "+"]
+    ch = _pick(rng, cand)
+    if not ch:
+        return None
+    ch["extra_attrs"] = {"default": rng.choice(["v", "", " "])}
+    return "default attribute on wildcard key"
+
+
+LIB_DIR = [None]
+
+
+def e_import_src_redefines(rng, m):
+    """<import src=...> of a schema file that defines a type name the
+    document has already defined (local definition first)."""
+    if not LIB_DIR[0]:
+        return None
+    t = _pick(rng, m["types"])
+    if not t:
+        return None
+    name = rng.choice([t["name"], t["name"].upper()])
+    kind = rng.choice(["sectiontype", "abstracttype"])
+    import os
+    fn = os.path.join(LIB_DIR[0], "lib_%s_%s.xml" % (kind[:3], name))
+    if not os.path.exists(fn):
+        with open(fn, "w") as f:
+            f.write("<schema><%s name='%s'/></schema>" % (kind, name))
+    twice = rng.random() < 0.3
+    m["inner_xml"] = "<import src='file://%s'/>" % fn
+    if twice:
+        # two libraries defining the same new name
+        fn2 = os.path.join(LIB_DIR[0], "lib2_%s.xml" % kind[:3])
+        fn3 = os.path.join(LIB_DIR[0], "lib3_%s.xml" % kind[:3])
+        for x in (fn2, fn3):
+            if not os.path.exists(x):
+                with open(x, "w") as f:
+                    f.write("<schema><%s name='libtype9'/></schema>" % kind)
+        m["inner_xml"] = "<import src='file://%s'/><import src='file://%s'/>" \
+            % (fn2, fn3)
+    return "import src redefines type %s" % name
 
 
 def e_keyed_default_on_plain(rng, m):
@@ -511,7 +556,8 @@ def e_section_of_schema(rng, m):
 EDITS = [e_dup_type, e_dup_key, e_dup_attr, e_hyphen_underscore,
          e_inherited_clash, e_inherited_attr_clash, e_use_before_def, e_extends_abstract,
          e_implements_concrete, e_wild_without_attr, e_key_star,
-         e_multisection_fixed, e_default_on_required,
+         e_multisection_fixed, e_default_on_required, e_default_attr_on_wild,
+         e_import_src_redefines,
          e_keyed_default_on_plain, e_unkeyed_default_on_wild,
          e_colliding_defaults, e_colliding_defaults_derived, e_bad_names,
          e_bad_names, e_nesting, e_nesting, e_multikey_default_attr,
@@ -617,6 +663,9 @@ def check_negative(ctx, m2, names, descs, counter):
 
 
 def run_shard(ctx):
+    import os
+    LIB_DIR[0] = os.path.join(ctx.tmp, "c10lib")
+    os.makedirs(LIB_DIR[0], exist_ok=True)
     rng = ctx.rng("edits")
     idx = 0
     for m in family.systematic_models():
